@@ -28,6 +28,7 @@ type FakeEIO struct {
 	Frames []Frame
 	Sends  int
 	CB     *eio.Callbacks
+	Conn   sio.VerifConn
 	Closed int
 	// CloseReason is what Close() reports back through OnClose (like the real socket does).
 	CloseReason eio.Reason
@@ -87,7 +88,7 @@ func (f *FakeEIO) TransportClose(reason eio.Reason) {
 
 // Attach registers the fake connection with the server.
 func (f *FakeEIO) Attach(srv *sio.Server) {
-	f.CB = srv.VerifOnEIOSocket(f)
+	f.CB, f.Conn = srv.VerifNewConn(f)
 }
 
 // NewFakeEIO creates and attaches a connection.
